@@ -1,4 +1,5 @@
 //! hv-sim: drivers that need the `elvis` crate (address generator, DHCP, routers, NDL).
+mod dhcph;
 mod ipgen;
 mod lifeh;
 mod ndlh;
@@ -16,6 +17,7 @@ fn main() {
     match argv[0].as_str() {
         "ipgen-drive" => ipgen::drive(&args),
         "life-drive" => lifeh::drive(&args),
+        "dhcp-drive" => dhcph::drive(&args),
         "router-drive" => routerh::drive(&args),
         "ndl-parse" => ndlh::parse(&args),
         "ndl-run" => ndlh::run(&args),
